@@ -18,13 +18,13 @@ Definition three := Some (@None sym, [3%nat]).
         read_cgsmiles fo (print braces a) ~ read_cgsmiles fo (print braces (expand a))
     (same graph up to renumbering; the identical graph when only nodes are multiplied). *)
 
-(** {[#A]([#B]([#C]))|2}: KeyError ')' *)
-Theorem C05_refuted_double_close : exists a,
-  wf fo0 a = true /\ class_C05 true a = 1%nat /\ model_C05 fo0 true a None <> 0%nat.
-Proof.
-  exists [Item (S "A") [] None None [Branch [Item (S "B") [] None None [Branch [nd "C"] None None]] two None]].
-  vm_compute. repeat split; discriminate.
-Qed.
+(** repaired (fix 0460546): {[#A]([#B]([#C]))|2} is read (it raised KeyError ')' before); the shorthand with a
+    unit that does not contain a nested branch, {[#X]([#A]([#B])|2)[#D]} (two closings behind the multiplier's
+    branch and its enclosing branch), is read as its longhand with the identity numbering *)
+Example C05_fixed_double_close :
+  (exists g, read_cgsmiles fo0 (print true [Item (S "A") [] None None [Branch [Item (S "B") [] None None [Branch [nd "C"] None None]] two None]]) = Ok g)
+  /\ model_C05 fo0 true [Item (S "X") [] None None [Branch [Item (S "A") [] None None [Branch [nd "B"] two None]] None None]; nd "D"] None = 0%nat.
+Proof. vm_compute. split; [eexists; reflexivity|reflexivity]. Qed.
 (** REPAIRED classes: their former refutation witnesses are now read as the same graph as the longhand, with
     the identity numbering (model_C05 … None = 0) *)
 (** {[#A]|3=[#B]} (fix f80d9d3) *)
@@ -153,5 +153,4 @@ Proof.
   vm_compute. repeat split; discriminate.
 Qed.
 
-Print Assumptions C05_refuted_double_close.
 Print Assumptions C05_refuted_ring_in_unit.
